@@ -283,7 +283,7 @@ def run(R):
     R.extra['multichar_tables'] = len(multi)
     for i in range(0, len(jobs), 300):
         recs = gramrun.run_grammars(jobs[i:i + 300], chunk=6)
-        gramrun.compare(R, recs, 'optable-exec', lambda r, c, g, w: 'parse-outcome')
+        gramrun.compare(R, recs, 'optable-exec', lambda r, c, g, w: 'parse-outcome', reject_is_violation=True)
         # token-level: the loop model and the precedence-climbing reference
         reqs, meta = [], []
         for r in recs:
